@@ -638,6 +638,7 @@ package crypto
 //@ assigns ret[0:1]
 //@ ensures n == 48 ==> ret[0] == old(be48(in[0:48]))
 //@ ensures n == 32 ==> ret[0] == old(be32(in[0:32]))
+//@ ensures [low-128-bits-are-replaced] n == 16 ==> ret[0] == old(ret[0]) - old(ret[0]) % 340282366920938463463374607431768211456 + old(be16At(in))
 
 //@ cfunc be_bytes_from_limbs nobody params out in n
 //@ requires in != nil && valid(out, n)
@@ -1468,10 +1469,6 @@ package crypto
 
 // ---- batch verification, Go skeleton (C19 frames, C09; the verdicts themselves are the C layer's: assumed)
 //@ global len(g1Serialization) == 48
-//@ cfunc bls_batch_verify nobody
-//@ requires sigs_len >= 1 && valid(results, sigs_len) && valid(pks_input, sigs_len) && valid(sigs_bytes, 48*sigs_len) && data_len >= 0 && valid(data, data_len) && valid(seed, 16*sigs_len)
-//@ assigns results[0:sigs_len]
-
 // (facts about package variables that only initBLS12381 writes: established by its contract above)
 //@ global g2PublicKey.isIdentity && e2IsInf(g2PublicKey.point)
 //@ func IdentityBLSPublicKey mode int props C01 C16 C17 C19 C09
@@ -1481,17 +1478,22 @@ package crypto
 //@ func BatchVerifyBLSSignaturesOneMessage$1 mode int props C19 C09
 //@ assigns nothing
 
-//@ func BatchVerifyBLSSignaturesOneMessage mode int props C19 C09
-//@ requires noTypedNilKeys(pks)
+//@ func BatchVerifyBLSSignaturesOneMessage mode int props C03 C19 C09
+//@ dead-return 2   // bls_batch_verify decides every entry (VALID or INVALID) for a 128-byte hash
+//@ dead-return 3   // crypto/rand.Read does not fail
+//@ requires noTypedNilKeys(pks) && len(pks) <= 16777215
 //@ assigns ghost(kmac)
 //@ ensures [one-verdict-per-signature] len(result0) == len(sigs) && fresh(result0)
 //@ ensures [on-error-every-verdict-is-false] result1 != nil ==> forall(k, 0, len(sigs), !result0[k])
 //@ ensures [empty-list] len(pks) == 0 ==> iserr(result1, errBLSAggregateEmptyList)
 //@ ensures [length-mismatch] len(pks) != 0 && len(pks) != len(sigs) ==> iserr(result1, *invalidInputsError)
+//@ ensures [true-only-for-canonical-G1-signatures-under-non-identity-keys] result1 == nil ==> forall(k, 0, len(sigs), result0[k] ==> len(sigs[k]) == 48 && !unbox(pks[k], *pubKeyBLSBLS12381).isIdentity && at(old(seqof(j, ite(g1canonAt(sigs[j]), 1, 0))), k) == 1 && inG1(at(old(seqof(j, g1ptAt(sigs[j]))), k)))
 //@ ensures [wrong-length-signature-or-identity-key-is-false] result1 == nil ==> forall(k, 0, len(sigs), (len(sigs[k]) != 48 || unbox(pks[k], *pubKeyBLSBLS12381).isIdentity) ==> !result0[k])
 //@ loop 1 invariant 0 <= i && i <= len(pks) && len(pks) == len(sigs) && len(flatSigs) == 48*i && len(pkPoints) == i && len(returnBool) == len(sigs) && fresh(returnBool) && len(falseSlice) == len(sigs) && fresh(falseSlice) && obj(returnBool) != obj(falseSlice)
 //@ loop 1 invariant forall(k, 0, len(sigs), !falseSlice[k])
 //@ loop 1 invariant forall(k, 0, i, typeis(pks[k], *pubKeyBLSBLS12381) && ((len(sigs[k]) != 48 || unbox(pks[k], *pubKeyBLSBLS12381).isIdentity) ==> !returnBool[k]))
+//@ loop 1 invariant [flat-chunks-decode-like-the-signatures] forall(k, 0, i, len(sigs[k]) == 48 && !unbox(pks[k], *pubKeyBLSBLS12381).isIdentity ==> at(g1ptSeqAt(flatSigs), k) == at(old(seqof(j, g1ptAt(sigs[j]))), k) && at(g1canonSeqAt(flatSigs), k) == at(old(seqof(j, ite(g1canonAt(sigs[j]), 1, 0))), k))
+//@ loop 2 invariant [true-verdicts-are-valid-results] forall(k, 0, i, returnBool[k] ==> verifInt[k] == 0)
 //@ loop 2 invariant 0 <= i && i <= len(verifInt) && len(verifInt) == len(sigs) && len(returnBool) == len(sigs) && fresh(returnBool) && len(falseSlice) == len(sigs) && fresh(falseSlice) && obj(returnBool) != obj(falseSlice)
 //@ loop 2 invariant forall(k, 0, len(sigs), !falseSlice[k])
 //@ loop 2 invariant forall(k, 0, len(sigs), typeis(pks[k], *pubKeyBLSBLS12381) && ((len(sigs[k]) != 48 || unbox(pks[k], *pubKeyBLSBLS12381).isIdentity) ==> !returnBool[k]))
@@ -1734,7 +1736,7 @@ package crypto
 //@ assigns nothing
 //@ ensures [accepts-exactly] result1 == nil && result0 == ecdsaAccepts(pk, sig, seqid(h))
 
-//@ func (*pubKeyECDSA).Verify mode int props C11 C09 C19
+//@ func (*pubKeyECDSA).Verify mode int recvinv props C11 C09 C19
 //@ requires pkECDSAOK(pk)
 //@ assigns ghost(alg)
 //@ ensures [nil-hasher] alg == nil ==> !result0 && result1 == errNilHasher
@@ -1750,7 +1752,7 @@ package crypto
 //@ ensures [signature-is-r-then-s-padded-to-32-bytes] result1 == nil ==> len(result0) == 64 && fresh(result0) && 1 <= be32v(result0[0:32]) && be32v(result0[0:32]) < curveN(sk.alg.curve) && 1 <= be32v(result0[32:64]) && be32v(result0[32:64]) < curveN(sk.alg.curve) && ecdsaSigOf(sk.alg.curve, sk.goPrKey.D.v, seqid(h), be32v(result0[0:32]), be32v(result0[32:64]))
 //@ ensures [error] result1 != nil ==> len(result0) == 0
 
-//@ func (*prKeyECDSA).Sign mode int props C11 C09 C19
+//@ func (*prKeyECDSA).Sign mode int recvinv props C11 C09 C19
 //@ requires skECDSAOK(sk)
 //@ assigns ghost(alg)
 //@ ensures [nil-hasher] alg == nil ==> len(result0) == 0 && result1 == errNilHasher
@@ -1813,7 +1815,7 @@ package crypto
 //@ ensures [rejects-with-invalid-input] result1 != nil ==> result0 == nil && iserr(result1, *invalidInputsError)
 //@ ensures [key] result1 == nil ==> typeis(result0, *pubKeyECDSA) && fresh(unbox(result0, *pubKeyECDSA)) && pkECDSAOK(unbox(result0, *pubKeyECDSA)) && unbox(result0, *pubKeyECDSA).goPubKey.X.v == be32(pkBytes[1:33])
 
-//@ func (*prKeyECDSA).PublicKey mode int props C12 C09
+//@ func (*prKeyECDSA).PublicKey mode int recvinv props C12 C09
 //@ requires skECDSAOK(sk) && sk.goPrKey.X != nil && sk.goPrKey.Y != nil && (sk.pubKey != nil ==> pkECDSAOK(sk.pubKey) && sk.pubKey.goPubKey == &sk.goPrKey.PublicKey)
 //@ assigns sk.pubKey
 //@ ensures [public-key-of-the-private-key-cached] typeis(result, *pubKeyECDSA) && unbox(result, *pubKeyECDSA) == sk.pubKey && pkECDSAOK(sk.pubKey) && sk.pubKey.goPubKey == &sk.goPrKey.PublicKey && (old(sk.pubKey) != nil ==> sk.pubKey == old(sk.pubKey))
@@ -1896,3 +1898,72 @@ package crypto
 //@ ensures [no-error-for-valid-seeds] len(ikm) >= 32 && len(ikm) <= 256 ==> result1 == nil
 //@ loop 1 assigns everything
 //@ loop 1 invariant hasher != nil && fresh(hasher) && hasher.hsize == 32 && len(salt) == 32 && fresh(salt) && sk != nil && fresh(sk) && len(secret) >= 1 && len(ikm) >= 32 && len(ikm) <= 256
+
+// =============================================================================================
+// Batch verification (C03)
+//@ cfunc new_node props C03 C09
+//@ assigns nothing
+//@ ensures result != nil && fresh(result) && result.pk == pk && result.sig == sig && result.left == nil && result.right == nil
+
+// treeOK(root, len): root is a well-formed aggregation tree over len leaves (uninterpreted, unfolded one level by an
+// axiom: node and operand pointers valid, a leaf has no children, the left subtree covers len - len/2 leaves, the right
+// one len/2). bls_batch_verify_tree never writes a pointer, so the predicate is stable while it runs.
+//@ cfunc bls_batch_verify_tree props C03 C09
+//@ requires treeOKU(root, len) && valid(results, len) && h != nil
+//@ assigns results[0:len]
+//@ ensures [invalid-marks-are-kept] forall(k, 0, len, old(results[k]) == INVALID ==> results[k] == INVALID)
+//@ ensures [every-undefined-entry-is-decided] forall(k, 0, len, old(results[k]) == UNDEFINED ==> results[k] == VALID || results[k] == INVALID)
+//@ ensures [a-valid-aggregate-validates-every-undecided-entry] pairOK2(old(*root.sig), negG2(), old(*h), old(*root.pk)) ==> forall(k, 0, len, old(results[k]) == UNDEFINED ==> results[k] == VALID)
+//@ ensures [a-failing-leaf-is-invalid] len == 1 && !pairOK2(old(*root.sig), negG2(), old(*h), old(*root.pk)) ==> results[0] == INVALID
+//@ loop 1 invariant [range] 0 <= i && i <= len
+//@ loop 1 invariant [done-so-far] forall(k, 0, i, results[k] == ite(old(results[k]) == UNDEFINED, VALID, old(results[k])))
+//@ loop 1 invariant [rest-untouched] forall(k, i, len, results[k] == old(results[k]))
+//@ loop 1 assigns results[0:len], i
+
+// build_tree: memory safety, frame and the aggregated values are proved; that the result is a well-formed tree
+// (treeOK) is an ASSUMED clause (it needs a frame argument over the recursively allocated nodes)
+//@ cfunc build_tree props C03 C09
+//@ dead-return 3   // malloc is assumed to succeed
+//@ requires len >= 1 && valid(pks, len) && valid(sigs, len)
+//@ assigns nothing
+//@ ensures [allocation-succeeds] result != nil
+//@ ensures [root-holds-the-tree-sum-of-the-leaves] result != nil ==> result.sig != nil && result.pk != nil && *result.sig == old(e1tsum(sigs, len)) && *result.pk == old(e2tsum(pks, len))
+//@ ensures [leaf-points-into-the-arrays] result != nil && len == 1 ==> result.sig == sigs && result.pk == pks && result.left == nil
+//@ ensures [operands-are-new-or-in-the-arrays] result != nil ==> fresh(result) && (fresh(result.sig) || obj(result.sig) == obj(sigs)) && (fresh(result.pk) || obj(result.pk) == obj(pks))
+//@ assumes result != nil ==> treeOK(result, len)
+
+//@ cfunc free_tree nobody
+//@ assigns nothing
+
+//@ cfunc Fr_set_limb nobody params a l
+//@ requires a != nil
+//@ assigns *a
+//@ ensures *a == l
+
+// bls_batch_verify: signature k is "bad" when its 48 bytes are not the canonical encoding of a point of G1; bad entries are
+// marked INVALID up front and replaced by the neutral pair (infinity, infinity); every other entry enters the aggregation
+// tree as (c_k * pk_k, c_k * s_k) with the SAME non-trivial coefficient c_k = 1 + (the k-th 16-byte chunk of the seed) on both.
+//@ pred sigChunk(b, k) = b[48*k:48*k+48]
+//@ pred badSigSeq(b) = seqof(j, ite(g1canonAt(sigChunk(b, j)) && inG1(g1ptAt(sigChunk(b, j))), 0, 1))
+//@ pred be16Of(b) = be16(b[0:16])
+//@ pred coefOf(seed, j) = frAdd(be16At(&seed[16*j]), 1)
+//@ pred scaledKeys(pks_input, seed) = seqof(j, e2Mul(ptAt(pks_input, j), coefOf(seed, j)))
+//@ pred scaledSigs(b, seed) = seqof(j, e1Mul(g1ptAt(sigChunk(b, j)), coefOf(seed, j)))
+
+//@ cfunc bls_batch_verify props C03 C09
+//@ dead-return 1   // malloc is assumed to succeed
+//@ requires 1 <= sigs_len && sigs_len <= 16777215 && valid(results, sigs_len) && valid(pks_input, sigs_len) && valid(sigs_bytes, 48*sigs_len) && data_len >= 0 && valid(data, data_len) && valid(seed, 16*sigs_len)
+//@ requires [seed-is-system-randomness] forall(k, 0, 16*sigs_len, seed[k] == rndof(seed[k]))
+//@ requires [results-apart-from-the-inputs] obj(results) != obj(sigs_bytes) && obj(results) != obj(seed) && obj(results) != obj(data) && obj(results) != obj(pks_input)
+//@ assigns results[0:sigs_len]
+//@ ensures [malformed-or-non-G1-signatures-are-invalid] data_len == 128 ==> forall(k, 0, sigs_len, at(old(badSigSeq(sigs_bytes)), k) == 1 ==> results[k] == INVALID)
+//@ ensures [every-entry-is-decided] data_len == 128 ==> forall(k, 0, sigs_len, results[k] == VALID || results[k] == INVALID)
+//@ ensures [wrong-hash-length-decides-nothing] data_len != 128 ==> forall(k, 0, sigs_len, results[k] == UNDEFINED)
+//@ loop 1 invariant [range] 0 <= i && i <= sigs_len
+//@ loop 1 invariant [bad-entries-are-marked long] forall(k, 0, i, at(old(badSigSeq(sigs_bytes)), k) == 1 ==> results[k] == INVALID)
+//@ loop 1 invariant [good-entries-are-undecided long] forall(k, 0, i, at(old(badSigSeq(sigs_bytes)), k) == 0 ==> results[k] == UNDEFINED)
+//@ loop 1 invariant [rest-is-undecided] forall(k, i, sigs_len, results[k] == UNDEFINED)
+//@ loop 1 invariant [current-entry-is-named] 0 <= at(old(badSigSeq(sigs_bytes)), i)
+//@ loop 1 invariant [keys-are-scaled-by-the-seed-coefficient long] forall(k, 0, i, at(old(badSigSeq(sigs_bytes)), k) == 0 ==> ptAt(pks, k) == at(old(scaledKeys(pks_input, seed)), k))
+//@ loop 1 invariant [signatures-are-scaled-by-the-same-coefficient long] forall(k, 0, i, at(old(badSigSeq(sigs_bytes)), k) == 0 ==> ptAt(sigs, k) == at(old(scaledSigs(sigs_bytes, seed)), k))
+//@ loop 1 assigns results[0:sigs_len], pks[0:sigs_len], sigs[0:sigs_len], i
